@@ -41,7 +41,7 @@ def reset_interp_counter():
 
 
 # ------------------------------------------------------------------------------------------------ generator
-METHOD_UOD = ("Short", "Long", "Long2", "Short", "Set1: 3", "Set1: 5", "Set2: 2.5 L/h", "Mode: A")   # never "Other"
+METHOD_UOD = ("Short", "Long", "Long2", "Short", "Set1: 3", "Set1: 5", "Set2: 2.5 L/h", "SetPlain: 1")   # never Other, Mode
 WATCH_CONDS = ("FT01 > 1 L/h", "FT01 > 3 L/h", "FT01 >= 5 L/h", "X = 0", "X = 2", "Run Counter >= 0")
 ALARM_CONDS = ("FT01 > 3 L/h", "FT01 > 5 L/h", "X = 1", "X = 4")
 
